@@ -54,6 +54,11 @@ SEEDS = {
  "S49-columns-push-vec-truncates": ("C20 (round 5)", "Push<Vec<T>> for ColumnsRegion sizes the columns with resize_with(item.len()) (also shrinks)", "an OWNED Vec row narrower than an earlier row: trailing columns are dropped, earlier rows read back short"),
  "S50-slice-serde-flatten": ("C16 (round 5)", "#[serde(flatten)] on SliceRegion::inner", "a slice region nested over a region that also has a `slices` field (SliceRegion<SliceRegion<_>>, SliceRegion<OwnedRegion<_>>) through a self-describing format: duplicate field on deserialisation"),
  "S51-result-clear-skips-errs": ("C11 (round 5; breaks C08 directly)", "ResultRegion::clear clears `oks` twice and never `errs`", "a ResultRegion whose Err side keeps state, with a clear between pushes: Err indices continue after the clear, a collapsing Err side dedups against pre-clear data"),
+ "S52-indexopt-clear-keeps-stride": ("C08 (round 6, untouched sites)", "IndexOptimized::clear resets the stride only when nothing has spilled, otherwise clears only the spill list", "a history with a stride prefix AND a spill before the clear (unequal item lengths, offsets 0,2,5): the stale stride survives, the first index after clear is not 0"),
+ "S53-tuple-clone-from-first-only": ("C09 (round 6)", "the tuple regions' clone_from is rewritten as a recursive macro arm that forgets the tail: only the first component is cloned", "clone_from of a tuple region whose non-first component keeps state into a destination holding other data"),
+ "S54-cip-reserve-regions-replaces-self": ("C10 (round 6)", "ConsecutiveIndexPairs::reserve_regions replaces self by merge_regions(..) when last_index == 0 ('nothing stored yet')", "a region holding ONLY EMPTY items (end offset still 0) that reserves: issued indices are wiped, the next push restarts at 0"),
+ "S55-readslice-cmp-shortlex": ("C15 (round 6)", "Ord::cmp for ReadSlice compares lengths first (valid for eq, turns lexicographic into shortlex order)", "items of different lengths that are not prefixes of one another ([2] vs [1,1]) compared through cmp; partial_cmp and == stay right"),
+ "S56-slice-heap-size-skips-inner": ("C18 (round 6)", "SliceRegion::heap_size reports `slices` twice and `inner` never (copy-paste slip)", "inner payload larger than one index entry per element; for small elements the double count masks the omission"),
 }
 results = {}
 # later files / lines override earlier ones for the same (seed, check): checks were strengthened between passes
@@ -62,10 +67,14 @@ for fn in ("summary.txt", "summary2.txt", "summary3.txt", "summary4.txt", "summa
     if not os.path.exists(p):
         continue
     for l in open(p):
-        m = re.match(r"(S\d\d\S+) (C\d\d) exit=(\d+) (\d+) violation line\(s\): (.*)", l.strip())
+        m = re.match(r"(S\d\d\S+) (C\d\d) exit=(\d+) (\d+) violation line\(s\):\s*(.*)", l.strip())
         if m:
             d = results.setdefault(m.group(1), {})
-            d[m.group(2)] = dict(check=m.group(2), exit=int(m.group(3)), violation_lines=int(m.group(4)), first=m.group(5)[:300])
+            rec = dict(check=m.group(2), exit=int(m.group(3)), violation_lines=int(m.group(4)), first=m.group(5)[:300])
+            if m.group(2) in d:
+                # remember what the check said when the change was delivered (before it was strengthened)
+                rec["exit_at_delivery"] = d[m.group(2)].get("exit_at_delivery", d[m.group(2)]["exit"])
+            d[m.group(2)] = rec
 results = {k: list(v.values()) for k, v in results.items()}
 for name, (prop, change, needs) in SEEDS.items():
     d = os.path.join(V, "seeded", name)
@@ -76,7 +85,7 @@ for name, (prop, change, needs) in SEEDS.items():
         breaks_property=prop, change=change, needs_to_manifest=needs,
         origin=("written by hand while building the C04 program-text scan (no sub-agent)" if name.startswith("S36") else "written by an independent sub-agent that was given only the property text and a scratch worktree of /repo"),
         confirmed=(dict(how="patch applies to /repo HEAD; crate compiles; the existing suite passes (nothing calls the new impl); the generated harness's replay is the demonstration", result="confirmed") if name.startswith("S36") else dict(how="tools/verify_seed.sh in a fresh scratch worktree of /repo HEAD: patch applies; crate compiles; existing suite (64 tests + 11 doctests) passes with the patch; demo.rs fails with the patch and passes without it", result="confirmed")),
-        checks_run=[dict(cmd="tools/seedtest.sh %s %s  (git -C /repo apply patch.diff; ./check %s --tier quick; git -C /repo checkout -- .)" % (name, r["check"], r["check"]), exit=r["exit"], violation_lines=r["violation_lines"], first_violations=r["first"]) for r in res],
+        checks_run=[dict(cmd="tools/seedtest.sh %s %s  (git -C /repo apply patch.diff; ./check %s --tier quick; git -C /repo checkout -- .)" % (name, r["check"], r["check"]), exit=r["exit"], violation_lines=r["violation_lines"], first_violations=r["first"], **({"exit_at_delivery": r["exit_at_delivery"]} if r.get("exit_at_delivery", r["exit"]) != r["exit"] else {})) for r in res],
         detected_by=[r["check"] for r in res if r["exit"] == 1],
     )
     json.dump(meta, open(os.path.join(d, "meta.json"), "w"), indent=1)
